@@ -349,6 +349,74 @@ func checkC19(c *Ctx, r *Report) {
 		r.Bad("R19d", c.FnName(nfkv), "empty value precedes parse", c.Pos(nfkv.Pos()), "no call of parse.Value found in the key=value loader")
 	}
 	r.Check(foundTrue, "R19d", c.FnName(nfkv), "bare key is true", c.Pos(nfkv.Pos()), "constant true flows into the value stored under the key", "no path stores the constant true as the value of a bare key")
+	loaderNormalisesRule(c, r)
+}
+
+// loaderNormalisesRule (R19e): the config a flag loader returns for an argument is made by ucfg.NewFrom (or
+// New + Merge, the same thing), or by the user's file loader — the only constructors that run the flag's options
+// over the *value* (variable expansion, path splitting of nested keys, metadata). The typed setters take the same
+// options but store a string verbatim.
+func loaderNormalisesRule(c *Ctx, r *Report) {
+	r.Rule("R19e", "every config a flag loader returns is made by ucfg.NewFrom (or New followed by Merge) or by the user's file loader, so that the flag's options apply to the value", 2)
+	newFrom := c.Func("", "NewFrom")
+	newFn := c.Func("", "New")
+	mergeFn := c.Method("", "Config", "Merge")
+	for _, top := range c.SrcFuncs() {
+		if top.Pkg != c.SSA["flag"] || top.Parent() != nil {
+			continue
+		}
+		for _, fn := range WithAnon(top) {
+			if fn.Parent() == nil {
+				continue
+			}
+			res := fn.Signature.Results()
+			if res.Len() == 0 || typeStr(res.At(0).Type()) != "*ucfg.Config" {
+				continue
+			}
+			for _, ret := range Returns(fn) {
+				ok, why := true, "made by NewFrom / the user's loader"
+				for _, s := range Sources(RetVal(ret, 0)) {
+					if IsNilConst(s) {
+						continue
+					}
+					var call *ssa.Call
+					switch x := s.(type) {
+					case *ssa.Extract:
+						if x.Index == 0 {
+							call, _ = x.Tuple.(*ssa.Call)
+						}
+					case *ssa.Call:
+						call = x
+					}
+					if call == nil {
+						ok, why = false, "the config comes from "+s.String()
+						continue
+					}
+					g := call.Call.StaticCallee()
+					switch {
+					case g == nil:
+						// a loader function given by the user
+					case g == newFrom:
+					case g == newFn:
+						merged := false
+						for _, m := range CallsTo(fn, mergeFn, false) {
+							mi := m.(ssa.Instruction)
+							if sameAsArg(m.Common().Args[0], call) && (mi.Block() == ret.Block() || mi.Block().Dominates(ret.Block())) {
+								merged = true
+							}
+						}
+						if !merged {
+							ok, why = false, "the config is an empty ucfg.New() filled by other means than Merge"
+						}
+					default:
+						ok, why = false, "the config is made by "+g.String()
+					}
+				}
+				r.Check(ok, "R19e", c.FnName(fn), "config made by NewFrom", c.Pos(ret.Pos()), why,
+					"a flag loader builds its config without NewFrom/Merge ("+why+"): the flag's options are not applied to the value — with VarExp a ${reference} in the argument stays literal, nested keys in the value are not split")
+			}
+		}
+	}
 }
 
 func lastInstr(b *ssa.BasicBlock) ssa.Instruction {
